@@ -319,7 +319,9 @@ def check_families(ctx, r, rid="R5"):
     # must then be tried against the unprefixed family with the *default* locale's words (where `a-propos` is not `about`)
     section = {"en": ["", ":section", "about"], "fr": ["", ":section", "a-propos"], "de": ["", ":section", "ueber"]}
     cases = [(about, u, w) for u, w in [("/fr/a-propos", "fr"), ("/de/ueber", "de"), ("/about", None), ("/en/about", "en"), ("/fr/about", False), ("/a-propos", False), ("/french/a-propos", False), ("/frites", False), ("/de/a-propos", False),
-                                         ("/FR/a-propos", False), ("/Fr/a-propos", False), ("/EN/about", False)]]
+                                         ("/FR/a-propos", False), ("/Fr/a-propos", False), ("/EN/about", False),
+                                         # what a parent route that matched part of a segment hands down (`/appfr/a-propos` under the parent `app`): no leading `/`
+                                         ("fr/a-propos", False), ("de/ueber", False)]]
     cases += [(section, u, w) for u, w in [("/fr/x/a-propos", "fr"), ("/x/about", None), ("/en/x/about", "en"), ("/fr/a-propos", False), ("/de/ueber", False), ("/x/a-propos", False), ("/fr/about", None), ("/de/x/a-propos", False)]]
     # two ordinary routes, one of which is a locale name followed by the other: `/entries` = `en` + `tries`, `/defr` ..; the first segment of
     # `/entries` is not a locale name, so it belongs to the unprefixed family (and `/frtries` to none)
